@@ -2,7 +2,7 @@
 
 COMMON_TRUSTED = [
     "fact extractor /verif/extract (go/ast) and correspondence harness /verif/harness",
-    "Lean compiler/runtime executing the model definitions in the native driver dnsdrv",
+    "Lean compiler/runtime executing the model definitions in the property's native driver (lean_exe drv_Cxx)",
 ]
 
 NOT_BUILT_REASON = ("check not built yet in this session (work in progress; see DESIGN.md order of work) - "
